@@ -5,6 +5,7 @@
 //!   harness <component> gen <seed> <tier> <outdir>   writes <outdir>/ops.txt, gen_stats.json
 //!   harness <component> run <opsfile> <outdir>       writes <outdir>/impl.txt, oracle.txt
 mod checksum;
+mod fsmodel;
 mod path;
 mod rng;
 mod segments;
@@ -36,6 +37,7 @@ fn main() {
                 "checksum" => checksum::gen(seed, tier, &mut w, &mut stats),
                 "path" => path::gen(seed, tier, &mut w, &mut stats),
                 "udp" => udp::gen(seed, tier, &mut w, &mut stats),
+                "fsmodel" => fsmodel::gen(seed, tier, &mut w, &mut stats),
                 _ => panic!("unknown component {comp}"),
             }
             w.flush().unwrap();
@@ -52,6 +54,7 @@ fn main() {
                 "checksum" => checksum::run(&ops, &mut out, &mut orc),
                 "path" => path::run(&ops, &mut out, &mut orc),
                 "udp" => udp::run(&ops, &mut out, &mut orc),
+                "fsmodel" => fsmodel::run(&ops, &mut out, &mut orc),
                 _ => panic!("unknown component {comp}"),
             }
             out.flush().unwrap();
